@@ -975,8 +975,75 @@ def enum_tuner_flag(tier):
         yield {"search": search, "base": base, "refit": refit, "start": start, "rs": 3}
 
 
+# ------------------------------------------------------------------------------ component names vs constructor arguments
+def _named_composites():
+    from sklearn.linear_model import LinearRegression
+
+    from sktime.forecasting.compose import EnsembleForecaster, MultiplexForecaster, StackingForecaster, TransformedTargetForecaster
+    from sktime.forecasting.naive import NaiveForecaster
+    from sktime.forecasting.online_learning import OnlineEnsembleForecaster
+    from sktime.forecasting.trend import PolynomialTrendForecaster
+    from sktime.transformations.series.boxcox import LogTransformer
+
+    def two(cls, **kw):
+        return lambda name: cls([(name, NaiveForecaster()), ("other", PolynomialTrendForecaster())], **kw)
+
+    return {
+        "ensemble": (EnsembleForecaster, two(EnsembleForecaster, aggfunc="median")),
+        "stack": (StackingForecaster, two(StackingForecaster, final_regressor=LinearRegression())),
+        "multiplex": (MultiplexForecaster, two(MultiplexForecaster, selected_forecaster="other")),
+        "online_ensemble": (OnlineEnsembleForecaster, two(OnlineEnsembleForecaster)),
+        "pipeline": (TransformedTargetForecaster, lambda name: TransformedTargetForecaster([(name, LogTransformer()), ("other", NaiveForecaster())])),
+    }
+
+
+def oracle_component_names(case, ctx):
+    """`<name>` in get_params() is either a constructor argument or a component: a composite
+    whose component carries the name of ANY of its constructor arguments (with or without a
+    default) is refused by fit; with a name that merely resembles one it is fitted, and every
+    constructor argument still reads back as given."""
+    cls, build = _named_composites()[case["composite"]]
+    name = case["name"]
+    ctx.mark_nontrivial(True)
+    ctx.label(case["composite"])
+    y = gen.build_series([7.0, 9.5, 6.25, 11.0, 8.0, 12.5, 9.0, 13.25, 10.5, 14.0, 11.5, 15.0], 3, "range")
+    args = [a for a in inspect.signature(cls.__init__).parameters if a != "self"]
+    est = sut(build, name)
+    if isinstance(est, Raised):
+        return [] if name in args and est.is_a(ValueError) else [unexpected(est, "constructing %s with a component named %r" % (cls.__name__, name))]
+    r = sut(est.fit, y.copy(), None, [1, 2])
+    if name in args:
+        ctx.label("name_is_constructor_argument")
+        if not (isinstance(r, Raised) and r.is_a(ValueError)):
+            return [D("ambiguous_component_name_accepted:%s" % cls.__name__, "component named %r (a constructor argument): fit -> %s" % (
+                name, repr(r) if isinstance(r, Raised) else "fitted"))]
+        if sut(lambda: est.is_fitted) is not False:
+            return [D("is_fitted_after_rejected_fit:%s" % cls.__name__, name)]
+        return []
+    if isinstance(r, Raised):
+        return [D("valid_fit_rejected:%s:%s@%s" % (cls.__name__, r.type, r.where), "component named %r: %s" % (name, r.msg))]
+    gp = est.get_params(deep=True)
+    discs = []
+    for a in args:
+        if gp.get(a) is not getattr(est, a):
+            discs.append(D("constructor_argument_shadowed:%s" % cls.__name__, "component named %r: get_params()[%r] is %r" % (name, a, gp.get(a))))
+    if not isinstance(gp.get(name), BaseEstimator):
+        discs.append(D("component_not_reachable_by_name:%s" % cls.__name__, "%r -> %r" % (name, gp.get(name))))
+    return discs
+
+
+def enum_component_names(tier):
+    for k, (cls, _) in _named_composites().items():
+        args = [a for a in inspect.signature(cls.__init__).parameters if a != "self"]
+        for a in args:
+            yield {"composite": k, "name": a}
+            yield {"composite": k, "name": a + "_"}
+            yield {"composite": k, "name": a.upper()}
+
+
 def subchecks():
     return [
+        SubCheck("component_names", oracle_component_names, enumerate_cases=enum_component_names, shards_quick=4, shards_thorough=4, exhaustive=True),
         SubCheck("tuner_fitted_flag", oracle_tuner_flag, enumerate_cases=enum_tuner_flag, shards_quick=4, shards_thorough=4, exhaustive=True),
         SubCheck("fitted_state_every_kind", oracle_fitted_state, enumerate_cases=enum_fitted_all_kinds,
                  shards_quick=16, shards_thorough=16, exhaustive=True),
